@@ -123,11 +123,16 @@ def gen(rng, tier='quick', exact_only=False, label_kind=None, allow_affine=True,
     big = tier == 'thorough'
     Sn = int(force.get('S', rng.integers(1, 5 if not big else 6)))
     nz = int(rng.integers(1, 4))
-    lk = label_kind or ['int', 'int', 'str', 'range'][int(rng.integers(4))]
+    lk = label_kind or ['int', 'str', 'range', 'range', 'perm', 'perm'][int(rng.integers(6))]
     if lk == 'str':
         labels = ['s%c' % (97 + i) for i in range(Sn)]
     elif lk == 'int':
         labels = None
+    elif lk == 'perm' and Sn >= 2:
+        # integer labels that look like positions but are not: a rotation of 0..S-1, or 1..S
+        k_ = int(rng.integers(1, Sn))
+        labels = [int((i + k_) % Sn) for i in range(Sn)] if rng.random() < 0.6 else \
+            [i + 1 for i in range(Sn)]
     else:
         labels = [10 * (i + 1) for i in range(Sn)]
     # supports
@@ -148,6 +153,7 @@ def gen(rng, tier='quick', exact_only=False, label_kind=None, allow_affine=True,
                       'center': c.tolist()}]
         elif k == 'boxcap':
             pr, _, zc = S.random_set(rng, nz, ['box'], allow_aux=False, center=c)
+            c = np.array(zc[:nz], float)       # random_set may move the centre (zero bounds)
             pr = [pr[0]]
             a = np.round(rng.normal(size=nz), 2)
             pr.append({'t': 'lin', 'A': [a.tolist()],
@@ -159,9 +165,14 @@ def gen(rng, tier='quick', exact_only=False, label_kind=None, allow_affine=True,
             # a single primitive keeps supports simple; a polytope needs its bounding piece
             prims = [q_ for q_ in pr if q_['t'] != 'eq'][:2] if k == 'polytope' else [pr[0]]
             prims[0]['center'] = list(zc)
+            c = np.array(zc[:nz], float)       # random_set may move the centre (zero bounds)
         supports.append(prims)
+        if shared:
+            shared_c = c
+        else:
+            centers[s] = c
     if shared:
-        centers = np.tile(np.round(centers.mean(axis=0), 2), (Sn, 1))
+        centers = np.tile(shared_c, (Sn, 1))
     wass = None
     if force.get('wass', rng.random() < 0.2) and nz >= 2:
         # Wasserstein-type ambiguity: last component u is the lifted distance variable,
